@@ -284,7 +284,20 @@ def run_window(op, tl, par):
         b = mk_source(s, [(t, "N", 0) for t in par["bounds"]] + ([(par["bend"][0], par["bend"][1], None)] if par.get("bend") else []))
         o = src.pipe((ops.buffer if buf else ops.window)(b))
     elif name == "window_when":
-        o = src.pipe((ops.buffer_when if buf else ops.window_when)(lambda: rx.timer(par["every"], scheduler=s)))
+        calls = []
+
+        def closing():
+            calls.append(1)
+            if par.get("sync_first") and len(calls) == 1:
+                # a closing observable that fires from inside its subscribe call (an already resolved AsyncSubject, ...)
+                from reactivex.disposable import Disposable
+
+                def sub(o_, sch=None):
+                    o_.on_completed()
+                    return Disposable()
+                return rx.create(sub)
+            return rx.timer(par["every"], scheduler=s)
+        o = src.pipe((ops.buffer_when if buf else ops.window_when)(closing))
     elif name == "window_toggle":
         opn = mk_source(s, [(t, "N", d) for (t, d) in par["opens"]])
         o = src.pipe((ops.buffer_toggle if buf else ops.window_toggle)(opn, lambda d: rx.timer(d, scheduler=s)))
@@ -361,6 +374,10 @@ def ref_window(op, tl, par):
             open_(SUB)
         cur_n, timer_due, gen = 0, None, 0
         if name == "window_when":
+            if par.get("sync_first"):
+                # the first closing observable fires while it is being subscribed: window 0 closes at once, window 1 opens
+                close_([w for w in wins if w[3]][-1], SUB)
+                open_(SUB)
             timer_due = SUB + par["every"]
         if name == "window_with_time_or_count":
             timer_due = SUB + par["span"]
@@ -483,6 +500,103 @@ def timelines(max_len=3):
     return out
 
 
+# ---------------------------------------------------------------------------------------------------------------------
+# group_join (C18; also what the toggle windows are built on)
+
+def run_group_join(op, tl, par):
+    import reactivex as rx
+    from reactivex import operators as ops
+    from reactivex.testing import TestScheduler
+    s = TestScheduler()
+    left = mk_source(s, tl)
+    right = mk_source(s, [tuple(e) for e in par["right"]])
+
+    def fails(v):
+        raise Boom("mapper")
+    ld = (lambda v: rx.timer(par["dl"] + (10 if v == 2 else 0), scheduler=s)) if not par.get("ldur_fails") else fails
+    rd = lambda v: rx.timer(par["dr"], scheduler=s)
+    o = left.pipe(ops.group_join(right, ld, rd), ops.map(lambda t: t[1].pipe(ops.map(lambda y, _x=t[0]: (_x, y)))))
+    inners, outer = observe_inners(s, o)
+    s.start()
+    return {"inners": [(t, k, list(items)) for (t, k, items) in inners], "outer": outer}
+
+
+def ref_group_join(op, tl, par):
+    """event simulation from the operator's contract: a left element opens a window that lives for its duration and is sent, at once,
+    what is retained; a right element goes to every open window and is retained for its duration; an error of either side (or of a
+    duration function) ends every open window and the output; the completion of the left side ends the output only; the
+    completion of the right side is ignored.  Order in one instant: the scheduler's (due time, scheduling order) - the left
+    source's messages were scheduled first, then the right's, a duration when its element arrived."""
+    import heapq
+    import itertools
+    seq = itertools.count()
+    q = []
+    for (t, k, v) in tl:
+        heapq.heappush(q, (t, next(seq), "L", (k, v)))
+    for (t, k, v) in par["right"]:
+        heapq.heappush(q, (t, next(seq), "R", (k, v)))
+    wins, held, outer = [], {}, []
+    st = {"dead": False, "outer_done": False, "hid": 0}
+
+    def fail(t, e):
+        for w in wins:
+            if w["open"]:
+                w["open"] = False
+                w["items"].append((t, "E", e))
+        st["dead"] = True
+        if not st["outer_done"]:
+            outer.append((t, "E", e))
+            st["outer_done"] = True
+
+    while q:
+        t, _s, who, payload = heapq.heappop(q)
+        if t >= STOP:
+            break
+        if st["dead"]:
+            break
+        if who == "L":
+            k, v = payload
+            if k == "N":
+                w = {"t": t, "x": v, "items": [], "open": True}
+                wins.append(w)
+                for hid in sorted(held):
+                    w["items"].append((t, "N", (v, held[hid])))
+                if par.get("ldur_fails"):
+                    fail(t, Boom("mapper"))
+                    continue
+                heapq.heappush(q, (t + par["dl"] + (10 if v == 2 else 0), next(seq), "close", w))
+            elif k == "E":
+                fail(t, Boom("src"))
+            else:
+                if not st["outer_done"]:
+                    outer.append((t, "C", None))
+                    st["outer_done"] = True
+        elif who == "R":
+            k, v = payload
+            if k == "N":
+                st["hid"] += 1
+                hid = st["hid"]
+                held[hid] = v
+                heapq.heappush(q, (t + par["dr"], next(seq), "expire", hid))
+                for w in wins:
+                    if w["open"]:
+                        w["items"].append((t, "N", (w["x"], v)))
+            elif k == "E":
+                fail(t, Boom("src"))
+        elif who == "close":
+            w = payload
+            if w["open"]:
+                w["open"] = False
+                w["items"].append((t, "C", None))
+        elif who == "expire":
+            held.pop(payload, None)
+    return {"inners": [(w["t"], None, list(w["items"])) for w in wins], "outer": outer}
+
+
+GJ_PARS = [{"dl": dl, "dr": dr, "right": r} for dl in (15, 30) for dr in (5, 20)
+           for r in ([], [[215, "N", "p"]], [[205, "N", "p"], [225, "N", "q"]], [[215, "N", "p"], [225, "C", None]], [[215, "N", "p"], [225, "E", None]],
+                     [[210, "N", "p"], [220, "N", "q"], [230, "N", "r"]])] + [{"dl": 15, "dr": 20, "right": [[205, "N", "p"]], "ldur_fails": True}]
+
 GROUP_PARS = ([{"key": k, "elem": e, "dur": d} for k in ("mod2", "const", "none_or_0") for e in ("-", "x10")
                for d in (["never"], ["timer", 10], ["timer", 25], ["count", 1], ["count", 2], ["group_end"], ["sync_empty"], ["throw_at", 1])]
               + [{"key": "mod2", "elem": "none", "dur": ["count", 2]}, {"key": "mod3", "elem": "-", "dur": ["group_end"]},
@@ -503,8 +617,9 @@ OPS = {
     "window": (run_window, ref_window, [{"bounds": b, "bend": e} for b in ([], [215], [215, 225], [210, 230], [205, 215, 235])
                                         for e in (None, [225, "C"], [225, "E"])], "_window.py", "C18"),
     "buffer": (run_window, ref_window, [{"bounds": b, "bend": None} for b in ([], [215], [215, 225], [205, 215, 235])], "_buffer.py", "C18"),
-    "window_when": (run_window, ref_window, [{"every": d} for d in (5, 15, 25, 100)], "_window.py", "C18"),
-    "buffer_when": (run_window, ref_window, [{"every": d} for d in (15, 25)], "_buffer.py", "C18"),
+    "window_when": (run_window, ref_window, [{"every": d} for d in (5, 15, 25, 100)] + [{"every": 15, "sync_first": True}], "_window.py", "C18"),
+    "buffer_when": (run_window, ref_window, [{"every": d} for d in (15, 25)] + [{"every": 15, "sync_first": True}], "_buffer.py", "C18"),
+    "group_join": (run_group_join, ref_group_join, GJ_PARS, "_groupjoin.py", "C18"),
     "window_toggle": (run_window, ref_window, [{"opens": o} for o in ([], [[205, 10]], [[205, 30], [215, 10]], [[215, 5], [225, 30]], [[205, 100], [206, 100]])], "_window.py", "C18"),
     "buffer_toggle": (run_window, ref_window, [{"opens": o} for o in ([[205, 30], [215, 10]], [[215, 5], [225, 30]])], "_buffer.py", "C18"),
 }
